@@ -252,12 +252,12 @@ class Gen:
             a = {"L": T(L.mT.contiguous() if upper else L, "triangular factor"), "upper": upper}
         elif recipe == "AddedDiag":
             base = sub(["DenseLinearOperator", "RootLinearOperator", "ToeplitzLinearOperator", "KroneckerProductLinearOperator"])
-            dsops, d = self.build(w, rng.choice(["Diag", "ConstantDiag"]), depth + 1)
+            dsops, d = self.build(w, rng.choice(["Diag", "ConstantDiag", "Identity"]), depth + 1)
             ops.extend(dsops)
             a = {"base": base, "diag": d}
         elif recipe == "LowRankRootAddedDiag":
             lsops, l = self.build(w, "LowRankRoot", depth + 1)
-            dsops, d = self.build(w, rng.choice(["Diag", "ConstantDiag"]), depth + 1)
+            dsops, d = self.build(w, rng.choice(["Diag", "ConstantDiag", "Identity"]), depth + 1)
             ops.extend(lsops + dsops)
             a = {"base": l, "diag": d}
         elif recipe in ("Kronecker", "KroneckerAddedDiag", "SumKronecker"):
